@@ -107,7 +107,7 @@ structure SInv (P : Params) (s : Srv) : Prop where
 theorem sinv_init (P : Params) (fr : OFr) (te : Bool) : SInv P (Srv.init fr te) := by
   constructor <;> simp [Srv.init, payload, decOf, feedAll, Run.init]
 
-theorem sinv_finish {P : Params} {s : Srv} (h : SInv P s) (hf : s.fin = none) : SInv P (finish s) := by
+theorem sinv_finish {P : Params} {s : Srv} (h : SInv P s) : SInv P (finish s) := by
   constructor
   · exact h.te_dec
   · intro _ hfin; simp [finish] at hfin
@@ -129,5 +129,648 @@ theorem sinv_finish {P : Params} {s : Srv} (h : SInv P s) (hf : s.fin = none) : 
     · simp [hw] at hfin
     · show s.whole = false
       simpa using hw
+
+
+theorem take_take_sub (seg : Bytes) (pl n extras : Nat) (he : extras = pl + seg.length - (pl - n) - n) :
+    seg.take (seg.length - extras) = seg.take (n - pl) := by
+  rw [List.take_eq_take_iff]
+  omega
+
+/-- writeReplyBody() keeps the invariant (replies that do not go through the decoder) -/
+theorem sinv_writeBody {P : Params} {s : Srv} (h : SInv P s) (hte : s.te = false) (hfin : s.fin = none) (seg : Bytes) (e : Bool)
+    (he : s.eof = true → e = true) :
+    SInv P (writeBody P { s with input := s.input ++ [seg], seen := s.seen + seg.length, eof := e } seg) := by
+  have hst := writeBody_static P { s with input := s.input ++ [seg], seen := s.seen + seg.length, eof := e } seg
+  obtain ⟨h1, h2, h3, h4, h5, h6, h7⟩ := hst
+  have hpl : payload (writeBody P { s with input := s.input ++ [seg], seen := s.seen + seg.length, eof := e } seg) = payload s ++ seg := by
+    simp [payload, h3]
+  constructor
+  · intro ht; rw [h1] at ht; simp [hte] at ht
+  · intro ht; rw [h1] at ht; simp [hte] at ht
+  · intro ht; rw [h1] at ht; simp [hte] at ht
+  · intro ht; rw [h1] at ht; simp [hte] at ht
+  · intro n _ hfr
+    rw [h2] at hfr
+    simp only at hfr
+    obtain ⟨hs, hseen, htr⟩ := h.cl_inv n hte hfr
+    rw [hpl]
+    unfold writeBody
+    simp only [hfr]
+    refine ⟨?_, ?_, ?_⟩
+    · simp only [List.take_append, hs]
+      congr 1
+      rw [hseen] at htr
+      apply take_take_sub seg (payload s).length n
+      rw [htr, hseen]
+    · simp [hseen]
+    · omega
+  · intro n _ hfr hw
+    rw [h2] at hfr
+    simp only at hfr
+    obtain ⟨hs, hseen, htr⟩ := h.cl_inv n hte hfr
+    rw [hpl]
+    unfold writeBody at hw
+    simp only [hfr, Bool.or_eq_true, decide_eq_true_eq] at hw
+    rcases hw with hw | hw
+    · have := h.cl_whole n hte hfr hw
+      simp; omega
+    · simp; omega
+  · intro _ hfr
+    rw [h2] at hfr
+    simp only at hfr
+    rw [hpl]
+    unfold writeBody
+    simp only [hfr]
+    rw [h.close_inv hte hfr]
+  · intro _ hfr hw
+    rw [h2] at hfr
+    simp only at hfr
+    rw [h5]
+    unfold writeBody at hw
+    simp only [hfr, Bool.or_eq_true] at hw
+    rcases hw with hw | hw
+    · exact he (h.close_whole hte hfr hw)
+    · exact hw
+  · intro _ hfr
+    rw [h2] at hfr
+    simp only at hfr
+    rw [hpl]
+    unfold writeBody
+    simp only [hfr]
+    have := h.none_inv hte hfr
+    cases hd : P.dropExtras <;> simp [hd] at this ⊢ <;> simp [this]
+  · intro hf; rw [h4] at hf; simp [hfin] at hf
+  · intro hf; rw [h4] at hf; simp [hfin] at hf
+
+
+theorem feed_of_not_more (relaxed : Bool) (capOf : Nat → Nat) (r : Run) (seg : Bytes) (h : r.verdict ≠ .more) :
+    feed relaxed capOf r seg = r := by
+  unfold feed; simp [h]
+
+/-- decodeAndWriteReplyBody() keeps the invariant -/
+theorem sinv_decodeBody {P : Params} {s : Srv} (h : SInv P s) (hte : s.te = true) (hfin : s.fin = none) (seg : Bytes) (e : Bool) :
+    SInv P (decodeBody P { s with input := s.input ++ [seg], seen := s.seen + seg.length, eof := e } seg) := by
+  have hdec := h.te_dec hte
+  have hsto := h.te_stored hte hfin
+  have hd : feed P.relaxed (fun _ => P.cap) s.dec seg = decOf P (s.input ++ [seg]) := by rw [decOf_snoc, hdec]
+  obtain ⟨t, ht⟩ := feed_out_ext P.relaxed (fun _ => P.cap) s.dec seg
+  have hwhole : s.whole = true → feed P.relaxed (fun _ => P.cap) s.dec seg = s.dec ∧ s.dec.verdict = .done := by
+    intro hw
+    have := (h.te_whole hte hw).1
+    exact ⟨feed_of_not_more _ _ _ _ (by rw [this]; simp), this⟩
+  unfold decodeBody
+  dsimp only
+  split
+  · -- rejected
+    rename_i rj hv
+    constructor
+    · intro _; simpa [finish] using hd
+    · intro _ hf; simp [finish] at hf
+    · intro _; simp only [finish]; rw [ht, hsto]; exact List.prefix_append _ _
+    · intro _ hw
+      simp only [finish] at hw
+      obtain ⟨h1, h2⟩ := hwhole hw
+      rw [h1, h2] at hv; simp at hv
+    · intro n ht'; simp [finish, hte] at ht'
+    · intro n ht'; simp [finish, hte] at ht'
+    · intro ht'; simp [finish, hte] at ht'
+    · intro ht'; simp [finish, hte] at ht'
+    · intro ht'; simp [finish, hte] at ht'
+    · intro hf
+      simp only [finish] at hf ⊢
+      by_cases hw : s.whole = true
+      · exact hw
+      · simp [hw] at hf
+    · intro hf
+      simp only [finish] at hf ⊢
+      by_cases hw : s.whole = true
+      · simp [hw] at hf
+      · simpa using hw
+  · -- last-chunk seen
+    rename_i hv
+    constructor
+    · intro _; simpa using hd
+    · intro _ _; rfl
+    · intro _; exact List.prefix_refl _
+    · intro _ _; exact ⟨hv, rfl⟩
+    · intro n ht'; simp [hte] at ht'
+    · intro n ht'; simp [hte] at ht'
+    · intro ht'; simp [hte] at ht'
+    · intro ht'; simp [hte] at ht'
+    · intro ht'; simp [hte] at ht'
+    · intro hf; simp [hfin] at hf
+    · intro hf; simp [hfin] at hf
+  · -- more data wanted (or trailers too large)
+    rename_i hnr hnd
+    constructor
+    · intro _; simpa using hd
+    · intro _ _; rfl
+    · intro _; exact List.prefix_refl _
+    · intro _ hw
+      simp only at hw
+      obtain ⟨h1, h2⟩ := hwhole hw
+      rw [h1] at hnd
+      exact absurd h2 hnd
+    · intro n ht'; simp [hte] at ht'
+    · intro n ht'; simp [hte] at ht'
+    · intro ht'; simp [hte] at ht'
+    · intro ht'; simp [hte] at ht'
+    · intro ht'; simp [hte] at ht'
+    · intro hf; simp [hfin] at hf
+    · intro hf; simp [hfin] at hf
+
+
+theorem sinv_processBody {P : Params} {s : Srv} (h : SInv P s) (hfin : s.fin = none) (seg : Bytes) (e : Bool)
+    (he : s.eof = true → e = true) :
+    SInv P (processBody P { s with seen := s.seen + seg.length, eof := e } seg) := by
+  unfold processBody
+  dsimp only
+  by_cases hte : s.te = true
+  · have hd := sinv_decodeBody h hte hfin seg e
+    rw [if_pos hte]
+    split
+    · exact hd
+    · split
+      · exact sinv_finish hd
+      · exact hd
+  · have hte' : s.te = false := by simpa using hte
+    have hw := sinv_writeBody h hte' hfin seg e he
+    rw [if_neg hte]
+    split
+    · exact hw
+    · split
+      · exact sinv_finish hw
+      · exact hw
+
+theorem sinv_srvStep {P : Params} {s : Srv} (h : SInv P s) (e : SEv) : SInv P (srvStep P s e) := by
+  unfold srvStep
+  split
+  · exact h
+  · rename_i hf
+    have hfin : s.fin = none := by
+      cases hs : s.fin with
+      | none => rfl
+      | some v => simp [hs] at hf
+    cases e with
+    | data seg =>
+      have := sinv_processBody h hfin seg s.eof (fun x => x)
+      simpa using this
+    | eof =>
+      have := sinv_processBody h hfin [] true (fun _ => rfl)
+      simpa using this
+    | error =>
+      have : SInv P { s with failed := true } := by
+        constructor
+        · exact h.te_dec
+        · exact h.te_stored
+        · exact h.te_pre
+        · exact h.te_whole
+        · exact h.cl_inv
+        · exact h.cl_whole
+        · exact h.close_inv
+        · exact h.close_whole
+        · exact h.none_inv
+        · exact h.fin_ok
+        · exact h.fin_bad
+      exact sinv_finish this
+
+/-- the store is append-only -/
+theorem srvStep_stored_ext {P : Params} {s : Srv} (h : SInv P s) (e : SEv) : ∃ t, (srvStep P s e).stored = s.stored ++ t := by
+  unfold srvStep
+  split
+  · exact ⟨[], by simp⟩
+  · rename_i hf
+    have hfin : s.fin = none := by
+      cases hs : s.fin with
+      | none => rfl
+      | some v => simp [hs] at hf
+    have key : ∀ (seg : Bytes) (e : Bool), ∃ t, (processBody P { s with seen := s.seen + seg.length, eof := e } seg).stored = s.stored ++ t := by
+      intro seg e
+      unfold processBody
+      dsimp only
+      have hfs : ∀ x : Srv, (finish x).stored = x.stored := fun _ => rfl
+      by_cases hte : s.te = true
+      · rw [if_pos hte]
+        have : ∃ t, (decodeBody P { s with input := s.input ++ [seg], seen := s.seen + seg.length, eof := e } seg).stored = s.stored ++ t := by
+          obtain ⟨t, ht⟩ := feed_out_ext P.relaxed (fun _ => P.cap) s.dec seg
+          have hsto := h.te_stored hte hfin
+          unfold decodeBody
+          dsimp only
+          split
+          · exact ⟨[], by simp [finish]⟩
+          · exact ⟨t, by simp [ht, hsto]⟩
+          · exact ⟨t, by simp [ht, hsto]⟩
+        split
+        · exact this
+        · split
+          · rw [hfs]; exact this
+          · exact this
+      · rw [if_neg hte]
+        have : ∃ t, (writeBody P { s with input := s.input ++ [seg], seen := s.seen + seg.length, eof := e } seg).stored = s.stored ++ t := by
+          unfold writeBody
+          dsimp only
+          split
+          · exact ⟨_, rfl⟩
+          · exact ⟨_, rfl⟩
+          · split
+            · exact ⟨[], by simp⟩
+            · exact ⟨_, rfl⟩
+          · exact ⟨[], by simp⟩
+        split
+        · exact this
+        · split
+          · rw [hfs]; exact this
+          · exact this
+    cases e with
+    | data seg => simpa using key seg s.eof
+    | eof => simpa using key [] true
+    | error => exact ⟨[], by simp [finish]⟩
+
+
+/-! ## client side -/
+
+/-- static coupling of the two sides (what buildReplyHeader() derives from the stored reply) -/
+structure WF (x : Sys) : Prop where
+  cl_cl : ∀ n, x.c.fr = .cl n → x.s.fr = .cl n ∧ x.s.te = false
+  close_ka : x.c.fr = .close → x.c.keepalive = false
+  head_none : x.c.headOnly = true → x.c.fr = .none
+
+/-- the body framing of what was written to the client -/
+def wireOf (fr : CFr) (pieces : List Bytes) (last : Bool) : Bytes :=
+  if fr = .chunked then (pieces.map packChunk).flatten ++ (if last then lastChunkBytes else []) else pieces.flatten
+
+/-- the Content-Range end test of socketState() is out of play -/
+def crOff (P : Params) (c : Cli) : Prop := c.crLen = none ∨ crApplies P c = false
+
+structure CCore (P : Params) (x : Sys) : Prop where
+  off_le : x.c.offset ≤ x.s.stored.length
+  body_eq : x.c.pieces.flatten = x.s.stored.take x.c.offset
+  wire_eq : x.c.wire = wireOf x.c.fr x.c.pieces x.c.lastChunk
+  pieces_ok : ∀ p ∈ x.c.pieces, p ≠ [] ∧ p.length ≤ max P.reqBuf 1
+  last_ok : x.c.lastChunk = true → x.s.fin = some .ok ∧ x.c.offset = x.s.stored.length ∧ x.c.fr = .chunked
+  complete_ok : x.c.complete = true → x.c.headOnly = false → x.s.fin.isSome = true ∧ x.c.offset = x.s.stored.length
+  complete_last : x.c.complete = true → x.c.headOnly = false → x.c.fr = .chunked → x.s.fin ≠ some .badLength → x.c.lastChunk = true
+  head_ok : x.c.headOnly = true → x.c.pieces = [] ∧ x.c.offset = 0 ∧ x.c.lastChunk = false ∧ x.c.complete = true
+
+structure CInv (P : Params) (x : Sys) : Prop extends CCore P x where
+  running : x.c.ended = none → x.c.headOnly = false → x.c.complete = false ∧ x.c.lastChunk = false
+  ended_ok : x.c.ended.isSome = true → crOff P x.c → (x.c.msgComplete = true ∨ x.s.fin = some .badLength)
+  keep_ok : x.c.ended = some .keep → crOff P x.c → x.c.msgComplete = true
+
+theorem cinv_init (P : Params) (s : Srv) (fr : CFr) (ka : Bool) (cr : Option Nat) : CInv P ⟨s, Cli.init fr ka cr⟩ := by
+  refine ⟨?_, ?_, ?_, ?_⟩
+  · constructor <;> simp [Cli.init, wireOf]
+  all_goals simp [Cli.init]
+
+theorem cinv_initHead (P : Params) (s : Srv) (ka : Bool) : CInv P ⟨s, Cli.initHead ka⟩ := by
+  refine ⟨?_, ?_, ?_, ?_⟩
+  · constructor <;> simp [Cli.initHead, wireOf]
+  all_goals simp [Cli.initHead]
+
+
+theorem stored_len_cl {P : Params} {s : Srv} (hs : SInv P s) (n : Nat) (hfr : s.fr = .cl n) (hte : s.te = false) :
+    s.stored.length ≤ n ∧ (s.fin = some .ok → s.stored.length = n) := by
+  obtain ⟨h1, _, _⟩ := hs.cl_inv n hte hfr
+  constructor
+  · rw [h1, List.length_take]; omega
+  · intro hf
+    have := hs.cl_whole n hte hfr (hs.fin_ok hf)
+    rw [h1, List.length_take]; omega
+
+theorem replyStatus_complete_sound {P : Params} {s : Srv} {c : Cli} (wf : WF ⟨s, c⟩) (hs : SInv P s)
+    (hoff : c.offset ≤ s.stored.length)
+    (hcl : c.complete = true → c.headOnly = false → c.fr = .chunked → s.fin ≠ some .badLength → c.lastChunk = true)
+    (h : replyStatus s c = .complete) :
+    (∀ n, c.fr = .cl n → c.offset = n) ∧ (c.fr = .chunked → c.lastChunk = true) := by
+  unfold replyStatus at h
+  split at h
+  · split at h
+    · simp at h
+    · rename_i hnb
+      split at h
+      · simp at h
+      · rename_i htd
+        have htd' : transferDone s c = true := by simpa using htd
+        constructor
+        · intro n hfr
+          have hle := (stored_len_cl hs n (wf.cl_cl n hfr).1 (wf.cl_cl n hfr).2).1
+          simp only [expectedSize, hfr] at h
+          split at h
+          · simp at h
+          · omega
+        · intro hfr
+          have hho : c.headOnly = false := by
+            cases hh : c.headOnly
+            · rfl
+            · have := wf.head_none hh; simp [hfr] at this
+          unfold transferDone at htd'
+          simp only [hho, Bool.false_eq_true, ↓reduceIte, hfr] at htd'
+          cases hc : c.complete
+          · simp [hc] at htd'
+          · exact hcl hc hho hfr hnb
+  · simp at h
+
+theorem replyStatus_unplanned_sound {P : Params} {s : Srv} {c : Cli} (wf : WF ⟨s, c⟩) (hs : SInv P s)
+    (h : replyStatus s c = .unplanned) : s.fin = some .badLength := by
+  unfold replyStatus at h
+  split at h
+  · split at h
+    · assumption
+    · rename_i hnb
+      split at h
+      · simp at h
+      · rename_i htd
+        have htd' : transferDone s c = true := by simpa using htd
+        exfalso
+        cases hfr : c.fr with
+        | none => simp [expectedSize, hfr] at h
+        | chunked => simp [expectedSize, hfr] at h
+        | close => simp [expectedSize, hfr] at h
+        | cl n =>
+          simp only [expectedSize, hfr] at h
+          split at h
+          · rename_i hlt
+            have hho : c.headOnly = false := by
+              cases hh : c.headOnly
+              · rfl
+              · have := wf.head_none hh; simp [hfr] at this
+            obtain ⟨hsfr, hste⟩ := wf.cl_cl n hfr
+            obtain ⟨_, hok⟩ := stored_len_cl hs n hsfr hste
+            unfold transferDone at htd'
+            simp only [hho, Bool.false_eq_true, ↓reduceIte, hfr] at htd'
+            cases hf : s.fin with
+            | none => simp [hf] at htd'; omega
+            | some v =>
+              cases v with
+              | ok => simp [hf] at htd'; have := hok hf; omega
+              | badLength => exact hnb hf
+          · simp at h
+  · simp at h
+
+theorem replyStatus_not_failed {s : Srv} {c : Cli}
+    (hco : c.complete = true → c.headOnly = false → s.fin.isSome = true ∧ c.offset = s.stored.length) :
+    replyStatus s c ≠ .failed := by
+  intro h
+  unfold replyStatus at h
+  split at h
+  · rename_i hor
+    split at h
+    · simp at h
+    · split at h
+      · rename_i hntd
+        have hntd' : transferDone s c = false := by simpa using hntd
+        have hc : c.complete = true := by simpa [hntd'] using hor
+        unfold transferDone at hntd'
+        cases hho : c.headOnly
+        · obtain ⟨hf, ho⟩ := hco hc hho
+          simp [hho, hc, hf, ho] at hntd'
+        · simp [hho] at hntd'
+      · split at h <;> (try split at h) <;> simp at h
+  · simp at h
+
+theorem replyStatus_of_complete {s : Srv} {c : Cli} (hc : c.complete = true) : replyStatus s c ≠ .none := by
+  unfold replyStatus
+  simp only [hc, Bool.or_true, ↓reduceIte]
+  split
+  · simp
+  · split
+    · simp
+    · split <;> (try split) <;> simp
+
+
+theorem afterWrite_fields (P : Params) (s : Srv) (c : Cli) :
+    (afterWrite P s c).fr = c.fr ∧ (afterWrite P s c).keepalive = c.keepalive ∧ (afterWrite P s c).crLen = c.crLen ∧
+    (afterWrite P s c).headOnly = c.headOnly ∧ (afterWrite P s c).offset = c.offset ∧ (afterWrite P s c).pieces = c.pieces ∧
+    (afterWrite P s c).wire = c.wire ∧ (afterWrite P s c).complete = c.complete ∧ (afterWrite P s c).lastChunk = c.lastChunk := by
+  unfold afterWrite
+  split <;> simp
+
+theorem socketState_eq_of_crOff (P : Params) (s : Srv) (c : Cli) (h : crOff P c) : socketState P s c = replyStatus s c := by
+  unfold socketState
+  split
+  · rename_i hn
+    rcases h with h | h
+    · simp [h, hn]
+    · simp only [h, Bool.false_eq_true, ↓reduceIte]
+      split <;> simp [hn]
+  · rename_i x hx
+    cases hr : replyStatus s c <;> simp_all
+
+theorem ccore_afterWrite {P : Params} {s : Srv} {c : Cli} (h : CCore P ⟨s, c⟩) : CCore P ⟨s, afterWrite P s c⟩ := by
+  obtain ⟨f1, f2, f3, f4, f5, f6, f7, f8, f9⟩ := afterWrite_fields P s c
+  constructor
+  · show (afterWrite P s c).offset ≤ _; rw [f5]; exact h.off_le
+  · show (afterWrite P s c).pieces.flatten = s.stored.take (afterWrite P s c).offset; rw [f5, f6]; exact h.body_eq
+  · show (afterWrite P s c).wire = wireOf (afterWrite P s c).fr (afterWrite P s c).pieces (afterWrite P s c).lastChunk
+    rw [f7, f1, f6, f9]; exact h.wire_eq
+  · show ∀ p ∈ (afterWrite P s c).pieces, _; rw [f6]; exact h.pieces_ok
+  · show (afterWrite P s c).lastChunk = true → s.fin = some .ok ∧ (afterWrite P s c).offset = s.stored.length ∧ (afterWrite P s c).fr = .chunked
+    rw [f9, f5, f1]; exact h.last_ok
+  · show (afterWrite P s c).complete = true → (afterWrite P s c).headOnly = false → s.fin.isSome = true ∧ (afterWrite P s c).offset = s.stored.length
+    rw [f8, f4, f5]; exact h.complete_ok
+  · show (afterWrite P s c).complete = true → (afterWrite P s c).headOnly = false → (afterWrite P s c).fr = .chunked → s.fin ≠ some .badLength → (afterWrite P s c).lastChunk = true
+    rw [f8, f4, f1, f9]; exact h.complete_last
+  · show (afterWrite P s c).headOnly = true → (afterWrite P s c).pieces = [] ∧ (afterWrite P s c).offset = 0 ∧ (afterWrite P s c).lastChunk = false ∧ (afterWrite P s c).complete = true
+    rw [f4, f6, f5, f9, f8]; exact h.head_ok
+
+
+theorem crOff_afterWrite (P : Params) (s : Srv) (c : Cli) : crOff P (afterWrite P s c) ↔ crOff P c := by
+  obtain ⟨f1, _, f3, _⟩ := afterWrite_fields P s c
+  simp [crOff, crApplies, f1, f3]
+
+theorem cinv_afterWrite {P : Params} {s : Srv} {c : Cli} (wf : WF ⟨s, c⟩) (hs : SInv P s) (h : CCore P ⟨s, c⟩)
+    (hnone : c.ended = none) (hrun : c.headOnly = false → c.complete = false → c.lastChunk = false) :
+    CInv P ⟨s, afterWrite P s c⟩ := by
+  obtain ⟨f1, f2, f3, f4, f5, f6, f7, f8, f9⟩ := afterWrite_fields P s c
+  have hsound := replyStatus_complete_sound wf hs h.off_le h.complete_last
+  have hunpl := replyStatus_unplanned_sound (P := P) wf hs
+  have hnf := replyStatus_not_failed (s := s) (c := c) h.complete_ok
+  -- the message is complete whenever replyStatus says so
+  have hmsg : replyStatus s c = .complete → socketState P s c = .complete → (afterWrite P s c).msgComplete = true := by
+    intro hr hss
+    obtain ⟨h1, h2⟩ := hsound hr
+    unfold Cli.msgComplete
+    rw [f1, f5, f9]
+    cases hfr : c.fr with
+    | none => rfl
+    | cl n => simp [h1 n hfr]
+    | chunked => simp [h2 hfr]
+    | close =>
+      have hka := wf.close_ka hfr
+      simp only at hka
+      simp [afterWrite, hss, hka]
+  refine ⟨ccore_afterWrite h, ?_, ?_, ?_⟩
+  · intro he hho
+    show (afterWrite P s c).complete = false ∧ (afterWrite P s c).lastChunk = false
+    rw [f4] at hho
+    rw [f8, f9]
+    cases hc : c.complete
+    · exact ⟨rfl, hrun hho hc⟩
+    · exfalso
+      have hne := replyStatus_of_complete (s := s) hc
+      have : socketState P s c = replyStatus s c := by
+        unfold socketState
+        cases hr : replyStatus s c <;> simp_all
+      unfold afterWrite at he
+      rw [this] at he
+      cases hr : replyStatus s c <;> simp_all
+  · intro he hcr
+    rw [crOff_afterWrite] at hcr
+    have hss := socketState_eq_of_crOff P s c hcr
+    show (afterWrite P s c).msgComplete = true ∨ s.fin = some .badLength
+    cases hr : replyStatus s c with
+    | none =>
+      exfalso
+      have : afterWrite P s c = c := by unfold afterWrite; rw [hss, hr]
+      rw [this, hnone] at he; simp at he
+    | complete => exact Or.inl (hmsg hr (by rw [hss, hr]))
+    | unplanned => exact Or.inr (hunpl hr)
+    | failed => exact absurd hr hnf
+  · intro he hcr
+    rw [crOff_afterWrite] at hcr
+    have hss := socketState_eq_of_crOff P s c hcr
+    show (afterWrite P s c).msgComplete = true
+    cases hr : replyStatus s c with
+    | none =>
+      exfalso
+      have : afterWrite P s c = c := by unfold afterWrite; rw [hss, hr]
+      rw [this, hnone] at he; simp at he
+    | complete => exact hmsg hr (by rw [hss, hr])
+    | unplanned =>
+      exfalso
+      have : (afterWrite P s c).ended = some .close := by unfold afterWrite; rw [hss, hr]
+      rw [this] at he; simp at he
+    | failed => exact absurd hr hnf
+
+
+theorem wireOf_snoc (fr : CFr) (pieces : List Bytes) (p : Bytes) :
+    wireOf fr (pieces ++ [p]) false = wireOf fr pieces false ++ (if fr = .chunked then packChunk p else p) := by
+  unfold wireOf
+  by_cases h : fr = .chunked <;> simp [h]
+
+theorem wireOf_last (pieces : List Bytes) : wireOf .chunked pieces true = wireOf .chunked pieces false ++ lastChunkBytes := by
+  simp [wireOf]
+
+theorem take_length_take (l : Bytes) (k : Nat) : l.take (l.take k).length = l.take k := by
+  rw [List.take_eq_take_iff, List.length_take]; omega
+
+/-- one store answer keeps the client-side invariant -/
+theorem cinv_cliStep {P : Params} {s : Srv} {c : Cli} (wf : WF ⟨s, c⟩) (hs : SInv P s) (h : CInv P ⟨s, c⟩) (k : Nat) :
+    CInv P ⟨s, cliStep P s c k⟩ := by
+  unfold cliStep
+  split
+  · exact h
+  · rename_i hen
+    have hnone : c.ended = none := by
+      cases he : c.ended with
+      | none => rfl
+      | some v => simp [he] at hen
+    split
+    · -- HEAD: the header is the message
+      rename_i hho
+      exact cinv_afterWrite wf hs h.toCCore hnone (fun hh => by rw [hho] at hh; simp at hh)
+    · rename_i hho
+      have hho' : c.headOnly = false := by simpa using hho
+      obtain ⟨hcf, hlf⟩ := h.running hnone hho'
+      dsimp only
+      split
+      · -- data
+        rename_i hav
+        have hoff := h.off_le
+        simp only at hoff
+        have hlt : c.offset < s.stored.length := by
+          rcases Nat.lt_or_ge c.offset s.stored.length with h1 | h1
+          · exact h1
+          · exact absurd (List.drop_eq_nil_of_le h1) hav
+        let p : Bytes := (s.stored.drop c.offset).take (min (max k 1) (max P.reqBuf 1))
+        have hplen : p.length = min (min (max k 1) (max P.reqBuf 1)) (s.stored.length - c.offset) := by simp [p, List.length_take]
+        have hcore : CCore P ⟨s, { c with offset := c.offset + p.length, pieces := c.pieces ++ [p],
+                                          wire := c.wire ++ (if c.fr = .chunked then packChunk p else p) }⟩ := by
+          constructor
+          · show c.offset + p.length ≤ s.stored.length
+            omega
+          · show (c.pieces ++ [p]).flatten = s.stored.take (c.offset + p.length)
+            have hb := h.body_eq
+            simp only at hb
+            rw [List.take_add, List.flatten_append, hb]
+            simp only [List.flatten_cons, List.flatten_nil, List.append_nil]
+            congr 1
+            exact (take_length_take _ _).symm
+          · show c.wire ++ _ = wireOf c.fr (c.pieces ++ [p]) c.lastChunk
+            have hw := h.wire_eq
+            simp only at hw
+            rw [hlf] at hw ⊢
+            rw [wireOf_snoc, hw]
+          · intro q hq
+            simp only [List.mem_append, List.mem_singleton] at hq
+            rcases hq with hq | hq
+            · exact h.pieces_ok q hq
+            · subst hq
+              constructor
+              · intro hnil
+                have : p.length = 0 := by rw [hnil]; rfl
+                omega
+              · omega
+          · intro hl; simp only at hl; rw [hlf] at hl; simp at hl
+          · intro hc; simp only at hc; rw [hcf] at hc; simp at hc
+          · intro hc; simp only at hc; rw [hcf] at hc; simp at hc
+          · intro hh; simp only at hh; rw [hho'] at hh; simp at hh
+        refine cinv_afterWrite ?_ hs hcore hnone (fun _ _ => hlf)
+        exact ⟨wf.cl_cl, wf.close_ka, wf.head_none⟩
+      · rename_i hav
+        have hav' : s.stored.drop c.offset = [] := by simpa using hav
+        have hoff := h.off_le
+        simp only at hoff
+        have hlen : c.offset = s.stored.length := by
+          have := List.drop_eq_nil_iff.mp hav'
+          omega
+        split
+        · exact h
+        · rename_i hfs
+          have hfs' : s.fin.isSome = true := by
+            cases hf : s.fin <;> simp [hf] at hfs ⊢
+          split
+          · -- the last-chunk is sent
+            rename_i hml
+            have hml' : c.fr = .chunked ∧ s.fin ≠ some .badLength := by simpa using hml
+            have hfok : s.fin = some .ok := by
+              cases hf : s.fin with
+              | none => simp [hf] at hfs'
+              | some v => cases v with
+                | ok => rfl
+                | badLength => exact absurd hf hml'.2
+            have hcore : CCore P ⟨s, { c with complete := true, wire := c.wire ++ lastChunkBytes, lastChunk := true }⟩ := by
+              constructor
+              · exact h.off_le
+              · exact h.body_eq
+              · show c.wire ++ lastChunkBytes = wireOf c.fr c.pieces true
+                have hw := h.wire_eq
+                simp only at hw
+                rw [hlf, hml'.1] at hw
+                rw [hml'.1, wireOf_last, hw]
+              · exact h.pieces_ok
+              · intro _; exact ⟨hfok, hlen, hml'.1⟩
+              · intro _ _; exact ⟨hfs', hlen⟩
+              · intro _ _ _ _; rfl
+              · intro hh; simp only at hh; rw [hho'] at hh; simp at hh
+            refine cinv_afterWrite ?_ hs hcore hnone (fun _ hc => by simp at hc)
+            exact ⟨wf.cl_cl, wf.close_ka, wf.head_none⟩
+          · rename_i hml
+            have hcore : CCore P ⟨s, { c with complete := true }⟩ := by
+              constructor
+              · exact h.off_le
+              · exact h.body_eq
+              · exact h.wire_eq
+              · exact h.pieces_ok
+              · intro hl; simp only at hl; rw [hlf] at hl; simp at hl
+              · intro _ _; exact ⟨hfs', hlen⟩
+              · intro _ _ hfr hnb
+                exfalso
+                apply hml
+                simp only at hfr
+                simp [hfr, hnb]
+              · intro hh; simp only at hh; rw [hho'] at hh; simp at hh
+            refine cinv_afterWrite ?_ hs hcore hnone (fun _ hc => by simp at hc)
+            exact ⟨wf.cl_cl, wf.close_ka, wf.head_none⟩
 
 end SquidModel.Relay.Response
